@@ -26,8 +26,9 @@ func (g *gen) pick(xs ...string) string { return xs[g.r.Intn(len(xs))] }
 func (g *gen) chance(p float64) bool    { return g.r.Float64() < p }
 
 var (
-	varNames  = []string{"a", "b", "c", "d", "n", "s", "v", "w", "err", "ctx"}
-	funcNames = []string{"foo", "bar", "baz", "qux", "f", "g", "h"}
+	// a few names outside ASCII: positions count bytes, names are compared as strings
+	varNames  = []string{"a", "b", "c", "d", "n", "s", "v", "w", "err", "ctx", "größe", "a", "b", "v"}
+	funcNames = []string{"foo", "bar", "baz", "qux", "f", "g", "h", "zähle"}
 	pkgNames  = []string{"fmt", "strings", "os", "pkg"}
 	selNames  = []string{"Println", "Sprintf", "Do", "Get", "Name", "Len", "Close"}
 	typeNames = []string{"int", "string", "T", "error", "bool", "byte"}
@@ -71,7 +72,7 @@ func (g *gen) lit() string {
 	case 0:
 		return fmt.Sprint(g.r.Intn(10))
 	case 1:
-		return fmt.Sprintf("%q", g.pick("x", "hello", "a b", "%d", ""))
+		return fmt.Sprintf("%q", g.pick("x", "hello", "a b", "%d", "", "héllo", "日本"))
 	case 2:
 		// incl. quote characters inside literals of another kind and the comment marker of the patch language
 		return g.pick("1.5", "0x1f", "'c'", "`raw`", "1e3", "\"`\"", "'`'", "\"#\"", "`\"`", "'\"'", "\"'\"", "\"//\"", "`#`")
